@@ -76,8 +76,18 @@ def do_run(sid, props):
     return res
 
 
+def do_keep(sid):
+    """scratch copy with the patch applied, left in place: prints its path (remove it yourself)"""
+    tmp = scratch()
+    rc, out = sh("patch -p1 -s -i %s" % os.path.join(VERIF, "seeded", sid, "patch.diff"), cwd=tmp)
+    assert rc == 0, out
+    print(tmp)
+
+
 if __name__ == "__main__":
-    if sys.argv[1] == "import":
+    if sys.argv[1] == "keep":
+        do_keep(sys.argv[2])
+    elif sys.argv[1] == "import":
         do_import(sys.argv[2], sys.argv[3])
     else:
         do_run(sys.argv[2], sys.argv[3:])
